@@ -83,7 +83,11 @@ func init() {
 				c09Exp(c, cs.Group, x, y)
 			case "dhm":
 				y, _ := new(big.Int).SetString(cs.Y, 16)
-				c09Materials(c, cs.Group, y, cs.X == "padded")
+				var draw *big.Int
+				if strings.HasPrefix(cs.X, "draw:") {
+					draw, _ = new(big.Int).SetString(cs.X[5:], 16)
+				}
+				c09Materials(c, cs.Group, y, cs.X == "padded", draw)
 			case "rand":
 				c09Stuck = cs.Stuck
 				c09Rand(c, cs.Fn, engine.NewReplayRun(cs.Env))
@@ -115,8 +119,21 @@ func runC09(c *engine.Ctx) {
 		for _, y := range c09Peers(g, true) {
 			for _, padded := range []bool{false, true} {
 				if c.Mine() {
-					c09Materials(c, gi, y, padded)
+					c09Materials(c, gi, y, padded, nil)
 				}
+			}
+		}
+		// chosen draws: sound exponents of every size (just above 2^128, shorter than the group-2 modulus, exactly
+		// its size, full length) and exponents whose public value starts with zero octets
+		y := new(big.Int).SetBytes(g.Public(big.NewInt(54321)))
+		var draws []*big.Int
+		for _, kbits := range []uint{128, 129, 200, 512, 1000, 1022, 1023, 1024, 1025, 1500, 2040, 2047} {
+			draws = append(draws, new(big.Int).Add(pow2(kbits), big.NewInt(0x1234567)))
+		}
+		draws = append(draws, c09LeadingZeroExponent(gi))
+		for _, d := range draws {
+			if c.Mine() {
+				c09Materials(c, gi, y, false, d)
 			}
 		}
 	}
@@ -456,7 +473,7 @@ func c09Rand(c *engine.Ctx, fn string, r *engine.Run) {
 }
 
 // c09Materials: CalculateDiffieHellmanMaterials with peer value y under a healthy scripted source.
-func c09Materials(c *engine.Ctx, gi int, y *big.Int, padded bool) {
+func c09Materials(c *engine.Ctx, gi int, y *big.Int, padded bool, draw *big.Int) {
 	c.Evals++
 	cs := c09Case{K: "dhm", Group: gi, Y: y.Text(16)}
 	if padded {
@@ -473,6 +490,12 @@ func c09Materials(c *engine.Ctx, gi int, y *big.Int, padded bool) {
 	k := infoSA(c07Case{PRF: 1, Integ: 1, Encr: 0, DH: gi})
 	seam := engine.NewSeam(nil, nil)
 	seam.Stream = stream
+	if draw != nil {
+		// the source delivers exactly this number as its first 256-octet draw
+		x = draw
+		cs.X = "draw:" + draw.Text(16)
+		seam.Script = [][]byte{draw.FillBytes(make([]byte, 256))}
+	}
 	restore := engine.Install(seam)
 	var pub, sh []byte
 	var err error
@@ -505,6 +528,25 @@ func c09Materials(c *engine.Ctx, gi int, y *big.Int, padded bool) {
 		return
 	}
 	c.DistinctS("dhm" + fmt.Sprint(gi, padded) + cs.Y)
+}
+
+var c09LZCache = map[int]*big.Int{}
+
+// c09LeadingZeroExponent: the smallest exponent above 2^128 whose public value in the group starts with a zero octet.
+func c09LeadingZeroExponent(gi int) *big.Int {
+	if v, ok := c09LZCache[gi]; ok {
+		return v
+	}
+	g := ref.GroupByID(dhIDs[gi])
+	x := new(big.Int).Add(pow2(128), big.NewInt(1))
+	for i := 0; i < 5000; i++ {
+		if g.Public(x)[0] == 0 {
+			break
+		}
+		x = new(big.Int).Add(x, big.NewInt(1))
+	}
+	c09LZCache[gi] = x
+	return x
 }
 
 var c09FirstCache = map[uint64]*big.Int{}
